@@ -16,7 +16,7 @@ def key(p):
 rows = []
 for p in sorted(glob.glob(os.path.join(VERIF, 'seeded', '*', 'meta.json')), key=key):
   m = json.load(open(p))
-  wave = 1 if key(p)[1] <= 3 else (2 if key(p)[1] <= 6 else 3)
+  wave = 1 if key(p)[1] <= 3 else (2 if key(p)[1] <= 6 else (3 if key(p)[1] <= 9 else 4))
   if m['id'].startswith('C11') and key(p)[1] >= 4:
     wave = 3
   rows.append('| %s | %d | %s | %s | %s |' % (m['id'], wave, m['breaks_property'], ', '.join(m['caught_by']) or 'NOT CAUGHT',
